@@ -67,8 +67,9 @@ theorem C08_interrupted_partial_terminate (maxArr : Nat) (sc : Script) (fuel : N
       request was accepted, or a pause / suspension hit a non-resumable section: FailedPause), or
     * the transition pausing -> idle happened: the engine went idle while a pause was pending -- the
       pause request landed after the plan's last message (open finding F4), or
-    * some request was refused during the call (the request coroutines set `_interrupted` before the state
-      assignment that raises TransitionError -- open finding "refused stop"). -/
+    * some request was refused during the call (abort/stop/halt record nothing when refused -- fix 7236275 --
+      but `_request_suspend` in a non-resumable section still stores `_interrupted` before a state assignment
+      that can raise TransitionError; that is only possible in aborting/stopping/halting). -/
 theorem C08_interrupted_idle_explained (maxArr : Nat) (sc : Script) (fuel : Nat) (s0 : EState) (plan : Gen)
     (h0 : s0.state = .idle)
     (hi : (schedule maxArr sc fuel (startCall s0 plan)).interrupted = true)
@@ -113,8 +114,8 @@ theorem C08_interrupted_idle_explained_resume (maxArr : Nat) (sc : Script) (fuel
   · rw [hs] at hp'; cases hp'
 
 /-- Who sets `_interrupted` (1): an environment action sets it only if it is a non-deferred pause
-    request, an abort/stop/halt request (accepted OR refused -- the request coroutines store the flag before
-    the state assignment that may raise TransitionError) or a suspension request while no checkpoint
+    request, an abort/stop/halt request (an ACCEPTED one: a refused request takes the first disjunct, see
+    `refused_request_stores_nothing` in Counterexamples/C02.lean) or a suspension request while no checkpoint
     exists; no action resets it. -/
 theorem C08_interrupt_sources (s : EState) (a : Action) :
     (applyAction s a).interrupted = s.interrupted ∨
